@@ -13,6 +13,7 @@ def opt(name, default):
         i = args.index(name); v = args[i + 1]; del args[i:i + 2]; return v
     return default
 jobs = int(opt("--jobs", "5")); mx = int(opt("--max", "400")); outp = opt("--out", "/verif/work/mutscan.json"); seed = int(opt("--seed", "1"))
+frm = opt("--from", None)
 files = args
 ssa = json.load(open("/verif/work/ssa.json"))
 decl_funcs = set()
@@ -58,6 +59,19 @@ for rel in files:
             muts.append({"file": rel, "line": i, "func": fn, "old": s, "new": "(deleted)", "newline": ""})
 random.Random(seed).shuffle(muts)
 muts = muts[:mx]
+if frm:
+    prev = [r for r in json.load(open(frm)) if r["status"] in ("survived", "stale", "error")]
+    muts = []
+    for r in prev:
+        L = open("/repo/" + r["file"]).read().split("\n")
+        if r["line"] - 1 < len(L) and L[r["line"] - 1].strip() == r["old"] or r["new"] == "(deleted)":
+            l = L[r["line"] - 1]
+            if r["new"] == "(deleted)":
+                nl = ""
+            else:
+                nl = l.replace(r["old"], r["new"]) if r["old"] in l else None
+            if nl is not None:
+                muts.append(dict(r, newline=nl))
 print("mutants:", len(muts), file=sys.stderr)
 
 ENV = dict(os.environ, PYTHONPATH="/verif/engine")
